@@ -63,8 +63,18 @@ TypeFull == {TVmm(v) : v \in TypeValsFull} \cup {TMstp(v) : v \in 0..7} \cup {Un
 TypeSmall == {TVmm(v) : v \in TypeValsSmall} \cup {TMstp(0), TMstp(3)} \cup {UnRaw(x) : x \in RawSmall}
 DefVmm == 65      \* 0x41: verbose log info
 
-LcsFull == {LcList(ids) : ids \in {<<>>, <<1>>, <<2>>, <<3, 1>>, <<2, 3>>, <<1, 2, 3>>}}
-LcsSmall == {LcList(<<>>), LcList(<<2>>), LcList(<<3, 1>>)}
+\* lifecycle lists of the sizes LcSizes over the even ids 2, 4, .. (odd ids and the ids below / above are non-members):
+\* ascending, descending, zigzag (neither), and zigzag with repeated ids
+LcSizes == {0, 1, 2, 4, 5, 8, 17}
+LcAsc(n) == [i \in 1..n |-> 2 * i]
+LcDesc(n) == [i \in 1..n |-> 2 * (n + 1 - i)]
+LcZig(n) == [i \in 1..n |-> IF i % 2 = 1 THEN 2 * ((i + 1) \div 2) ELSE 2 * (n + 1 - (i \div 2))]
+LcDup(n) == IF n = 0 THEN <<>> ELSE LcZig(n) \o <<LcZig(n)[1], LcZig(n)[n], LcZig(n)[(n + 1) \div 2]>>
+LcsFull == {LcList(ids) : ids \in {<<1>>, <<3, 1>>, <<1, 2, 3>>}}
+           \cup UNION {{LcList(LcAsc(n)), LcList(LcDesc(n)), LcList(LcZig(n)), LcList(LcDup(n))} : n \in LcSizes}
+LcsSmall == {LcList(<<>>), LcList(<<2>>), LcList(<<3, 1>>), LcList(LcDesc(5))}
+LcMax(ids) == IF Len(ids) = 0 THEN 2 ELSE CHOOSE x \in {ids[i] : i \in 1..Len(ids)} : \A i \in 1..Len(ids) : ids[i] <= x
+
 
 \* a filter as a tuple of its 8 criterion slots: 1 ecu, 2 apid, 3 ctid, 4 type, 5 lmin, 6 lmax, 7 pay, 8 lcs
 NoSlots == <<NoId, NoId, NoId, NoType, -1, -1, NoPay, NoLcs>>
@@ -106,7 +116,8 @@ MsgsFor(v) ==
         vmmU   == IF tyrel = {} THEN {DefVmm} ELSE IF S \subseteq {4, 5, 6} THEN 0..255 ELSE VmmSmall
         textU  == IF 7 \in S THEN Texts ELSE {DefText}
         \* narrower reading: a message without lifecycle (0) is not asked against a non-empty lifecycle list
-        lcU    == IF 8 \in S THEN (IF Len(v[8].ids) = 0 THEN 0..3 ELSE 1..3) ELSE {1}
+        \* every member, the non-members between them, below and above
+        lcU    == IF 8 \in S THEN (IF Len(v[8].ids) = 0 THEN 0..3 ELSE 1..(LcMax(v[8].ids) + 2)) ELSE {1}
     IN {[ecu |-> e, ext |-> TRUE, apid |-> a, ctid |-> c, vmm |-> b, text |-> t, lc |-> l]
             : e \in ecuU, a \in apidU, c \in ctidU, b \in vmmU, t \in textU, l \in lcU}
        \cup {[ecu |-> e, ext |-> FALSE, apid |-> Zero4, ctid |-> Zero4, vmm |-> 0, text |-> t, lc |-> l]
@@ -145,6 +156,12 @@ LiteralIsExact0 == \A s \in 1..3 : sl[s].k = "lit" =>
                          p == Pad4(sl[s].w)
                      IN IdHolds(sl[s], x) = (PatAt(p, x, 1) /\ Len(p) = Len(x))
 IgnoreCaseAdds0 == (sl[7].k # "none" /\ sl[7].cls # "nostar" /\ PayHolds(sl[7], m.text)) => PayHolds([sl[7] EXCEPT !.ic = TRUE], m.text)
+\* the lifecycle lists decide by their set of ids only
+LcSetSemantics0 == sl[8].k # "none" => \A n \in LcSizes \ {0} : LET mm == [m EXCEPT !.lc = (m.lc % (2 * n + 2)) + 1] IN
+                     /\ LcHolds(LcList(LcAsc(n)), mm) = LcHolds(LcList(LcDesc(n)), mm)
+                     /\ LcHolds(LcList(LcAsc(n)), mm) = LcHolds(LcList(LcZig(n)), mm)
+                     /\ LcHolds(LcList(LcAsc(n)), mm) = LcHolds(LcList(LcDup(n)), mm)
+                     /\ LcHolds(LcList(LcAsc(n)), mm) = (mm.lc % 2 = 0 /\ mm.lc <= 2 * n)
 DisabledNeverMatches == pc = "done" => DisabledNeverMatches0
 NegationInverts == pc = "done" => NegationInverts0
 NoExtNeverHolds == pc = "done" => NoExtNeverHolds0
@@ -153,6 +170,7 @@ OneFailing == pc = "done" => OneFailing0
 TypeRules == pc = "done" => TypeRules0
 LiteralIsExact == pc = "done" => LiteralIsExact0
 IgnoreCaseAdds == pc = "done" => IgnoreCaseAdds0
+LcSetSemantics == pc = "done" => LcSetSemantics0
 
 -----------------------------------------------------------------------------
 \* scenario emission (separate config, SPECIFICATION ESpec: one behaviour per filter; m is not used)
